@@ -104,7 +104,10 @@ func parkedRuns() int {
 	pprof.Lookup("goroutine").WriteTo(&buf, 1)
 	n := 0
 	for _, blk := range strings.Split(buf.String(), "\n\n") {
-		if strings.Contains(blk, "logfile.(*FileLogger).run") && strings.Contains(blk, "time.Sleep") {
+		// parked = asleep, or blocked on a mutex for good (a background cycle of an earlier, closed
+		// logger that deadlocked on its own lock will never act again; nobody else holds a logger's
+		// lock while the harness waits here)
+		if strings.Contains(blk, "logfile.(*FileLogger).run") && (strings.Contains(blk, "time.Sleep") || strings.Contains(blk, "sync.(*Mutex).Lock")) {
 			head := blk
 			if i := strings.Index(blk, "\n"); i >= 0 {
 				head = blk[:i]
@@ -134,8 +137,13 @@ var settleTimeouts int
 // cycle and sleeps (so that it does not act at a time of its own choosing in the next 10 s).
 func waitParked() {
 	deadline := time.Now().Add(120 * time.Second) // bounds a hang only; a loaded machine just takes longer
+	if settleTimeouts > 0 {
+		// some background goroutine is stuck for good: waiting the long bound again for every
+		// further logger would only burn time
+		deadline = time.Now().Add(3 * time.Second)
+	}
 	for i := 0; ; i++ {
-		if parkedRuns() >= created {
+		if parkedRuns() >= created-lostRuns {
 			return
 		}
 		if time.Now().After(deadline) {
@@ -185,6 +193,12 @@ type hcase struct {
 	Seeds  []seed `json:"seeds"`
 	Nested []seed `json:"nested"` // files under logs/sub/
 	Ops    []hop  `json:"ops"`
+	// unusual configuration (retention-names family): the last element of the home path (may carry
+	// glob metacharacters), and a sibling home directory <parent>/<Twin>/logs with its own files,
+	// which belongs to somebody else
+	Home      string `json:"home,omitempty"`
+	Twin      string `json:"twin,omitempty"`
+	TwinSeeds []seed `json:"twin_seeds,omitempty"`
 }
 
 // what the implementation did
@@ -200,6 +214,8 @@ type obs struct {
 	readFile []string            // READ ops: actual file argument
 	snapMap  []map[string][]byte // READ ops: path -> content of regular files under logs (nil entry = directory)
 	dels     [][]string          // PROC/CLR ops: names removed
+	dirDels  [][]string          // PROC/CLR ops: directories directly under logs that existed before and not after
+	outDels  [][]string          // PROC/CLR ops: files of the sibling home that existed before and not after
 	before   [][]string          // PROC/CLR ops: regular files before
 	panics   []string
 	hung     bool
@@ -256,17 +272,73 @@ func (c *fakeConf) String() string                                        { retu
 var homeSeq int
 
 func newHome() string {
+	h, _ := newHomeNamed("")
+	return h
+}
+
+// newHomeNamed: with a name, the home is <base>/<name> (the name may carry any byte but '/');
+// base is what has to be removed afterwards.
+func newHomeNamed(name string) (home, base string) {
 	homeSeq++
 	h, err := filepath.Abs(fmt.Sprintf("c17-home-%d-%d", os.Getpid(), homeSeq))
 	if err != nil {
 		vh.Die("abs: %v", err)
 	}
 	os.RemoveAll(h)
-	if err := os.MkdirAll(filepath.Join(h, "logs"), 0o755); err != nil {
+	base = h
+	if name != "" {
+		h = h + string(filepath.Separator) + name // not Join: the name is taken as it is
+	}
+	if err := os.MkdirAll(h+string(filepath.Separator)+"logs", 0o755); err != nil {
 		vh.Die("mkdir: %v", err)
 	}
-	return h
+	return h, base
 }
+
+func listDirs(dir string) []string {
+	es, _ := os.ReadDir(dir)
+	var out []string
+	for _, e := range es {
+		if e.IsDir() {
+			out = append(out, e.Name())
+		}
+	}
+	sort.Strings(out)
+	return out
+}
+
+func minus(before, after []string) []string {
+	af := map[string]bool{}
+	for _, x := range after {
+		af[x] = true
+	}
+	var del []string
+	for _, x := range before {
+		if !af[x] {
+			del = append(del, x)
+		}
+	}
+	return del
+}
+
+// ---------------------------------------------------------------- watchdog
+//
+// Every call into the implementation runs under a watchdog (vh.GuardTimeout): a call that never
+// returns (a lock taken twice, a loop that does not end) must end the history, not the check.
+// The first hang gets the long watchdog; afterwards a shorter one bounds what the remaining
+// histories can cost, and the families in which a hang was met are not fed again.
+var hangs int
+var hungGens = map[string]bool{}
+var lostRuns int // loggers whose lock is held for good: their background goroutine never parks again
+
+func watchdog() time.Duration {
+	if hangs > 0 {
+		return 30 * time.Second
+	}
+	return 120 * time.Second
+}
+
+func guarded(f func()) vh.Outcome { return vh.GuardTimeout(watchdog(), f) }
 
 func listRegular(dir string) []string {
 	es, _ := os.ReadDir(dir)
@@ -414,7 +486,7 @@ func fillsTable(c *hcase) bool {
 
 // runImpl executes the history on a fresh real logger.
 func runImpl(c *hcase) *obs {
-	if hangEstablished && fillsTable(c) {
+	if (hangEstablished && fillsTable(c)) || hungGens[strings.TrimSuffix(c.Gen, "+probe")] {
 		return &obs{skipped: true, files: map[string][]byte{}}
 	}
 	if !realClock {
@@ -423,12 +495,23 @@ func runImpl(c *hcase) *obs {
 	if (c.Clock == "delta" || c.Clock == "server") && len(c.Deltas) == 0 {
 		c.Deltas = []int64{3600000}
 	}
-	home := newHome()
-	defer os.RemoveAll(home)
-	logs := filepath.Join(home, "logs")
+	home, base := newHomeNamed(c.Home)
+	defer os.RemoveAll(base)
+	logs := home + "/logs"
+	twinLogs := ""
+	if c.Twin != "" {
+		twinLogs = base + "/" + c.Twin + "/logs"
+		os.MkdirAll(twinLogs, 0o755)
+		for _, s := range c.TwinSeeds {
+			os.WriteFile(twinLogs+"/"+s.Name, vh.UnHex(s.Content), 0o644)
+		}
+	}
 	for _, s := range c.Seeds {
 		if s.Dir {
 			os.Mkdir(filepath.Join(logs, s.Name), 0o755)
+			if s.Content != "" { // a directory that is not empty
+				os.WriteFile(filepath.Join(logs, s.Name, "inside.txt"), vh.UnHex(s.Content), 0o644)
+			}
 			continue
 		}
 		if err := os.WriteFile(filepath.Join(logs, s.Name), vh.UnHex(s.Content), 0o644); err != nil {
@@ -456,10 +539,12 @@ func runImpl(c *hcase) *obs {
 	ob.snapMap = make([]map[string][]byte, n)
 	ob.dels = make([][]string, n)
 	ob.before = make([][]string, n)
+	ob.dirDels = make([][]string, n)
+	ob.outDels = make([][]string, n)
 
 	c.setTime(-1, c.T0)
 	var l *logfile.FileLogger
-	out := vh.Guard(func() {
+	out := guarded(func() {
 		// options that must not change anything observable: a context, a config observer, stdout off
 		opts := []logfile.FileLoggerOption{logfile.WithHomePath(home), logfile.WithOnameLogID(c.Oname, c.LogID), logfile.WithLevel(c.Level)}
 		sel := c.T0/1000 + int64(len(c.Ops)) + int64(len(c.Seeds))
@@ -477,13 +562,36 @@ func runImpl(c *hcase) *obs {
 		l = logfile.NewFileLogger(opts...)
 	})
 	created++
+	if out.Timeout {
+		hangs++
+		lostRuns++
+		hungGens[strings.TrimSuffix(c.Gen, "+probe")] = true
+		ob.hung = true
+		ob.panics = append(ob.panics, fmt.Sprintf("NewFileLogger: did not return within %v", watchdog()))
+		return ob
+	}
 	if !out.OK() || l == nil {
 		ob.panics = append(ob.panics, "NewFileLogger: "+out.Panic)
 		return ob
 	}
 	waitParked()
-	defer l.CloseForVerif()
+	defer func() {
+		if !ob.hung { // a hung call holds the logger's lock: closing would block as well
+			guarded(func() { l.CloseForVerif() })
+		}
+	}()
 	ob.newCur = curName(l)
+	// hung: operation i did not return; the history ends here and is reported once
+	hung := func(i int, what string) {
+		wd := watchdog()
+		hangs++
+		lostRuns++
+		hungGens[strings.TrimSuffix(c.Gen, "+probe")] = true
+		ob.outs[i] = "timeout"
+		ob.hung = true
+		ob.panics = append(ob.panics, fmt.Sprintf("op %d %s: did not return within %v", i, what, wd))
+		ob.curAt[i] = curName(l)
+	}
 
 ops:
 	for i := range c.Ops {
@@ -492,20 +600,13 @@ ops:
 		switch o.Kind {
 		case "log":
 			before := curSize(l)
-			var g vh.Outcome
-			if i%64 == 0 || len(c.Ops) > 300 {
-				// watchdog (a call that never returns holds the logger's locks): always for the long
-				// many-id histories, sampled elsewhere
-				g = vh.GuardTimeout(120*time.Second, func() { callLog(l, o.Meth, string(vh.UnHex(o.ID)), string(vh.UnHex(o.Msg))) })
-			} else {
-				g = vh.Guard(func() { callLog(l, o.Meth, string(vh.UnHex(o.ID)), string(vh.UnHex(o.Msg))) })
-			}
+			// watchdog on every call (a call that never returns holds the logger's locks)
+			g := guarded(func() { callLog(l, o.Meth, string(vh.UnHex(o.ID)), string(vh.UnHex(o.Msg))) })
 			if g.Timeout {
-				hangEstablished = true // once is enough: every further call of this family would block as long
-				ob.outs[i] = "timeout"
-				ob.hung = true
-				ob.panics = append(ob.panics, fmt.Sprintf("op %d %s: did not return within 120 s", i, o.Meth))
-				ob.curAt[i] = curName(l)
+				if fillsTable(c) {
+					hangEstablished = true // once is enough: every further call of these families would block as long
+				}
+				hung(i, o.Meth)
 				break ops
 			}
 			after := curSize(l)
@@ -520,25 +621,33 @@ ops:
 			}
 		case "proc", "clr":
 			bf := listRegular(logs)
-			g := vh.Guard(func() {
+			dbf := listDirs(logs)
+			var tbf []string
+			if twinLogs != "" {
+				tbf = listRegular(twinLogs)
+			}
+			g := guarded(func() {
 				if o.Kind == "proc" {
 					l.ProcessOnceForVerif()
 				} else {
 					l.ClearOldLogForVerif()
 				}
 			})
-			af := map[string]bool{}
-			for _, x := range listRegular(logs) {
-				af[x] = true
-			}
-			var del []string
-			for _, x := range bf {
-				if !af[x] {
-					del = append(del, x)
-				}
-			}
+			del := minus(bf, listRegular(logs))
 			ob.dels[i] = del
 			ob.before[i] = bf
+			ob.dirDels[i] = minus(dbf, listDirs(logs))
+			if twinLogs != "" {
+				ob.outDels[i] = minus(tbf, listRegular(twinLogs))
+			}
+			if g.Timeout {
+				what := "background cycle (process)"
+				if o.Kind == "clr" {
+					what = "retention pass (clearOldLog)"
+				}
+				hung(i, what)
+				break ops
+			}
 			if !g.OK() {
 				ob.outs[i] = "panic"
 				ob.panics = append(ob.panics, fmt.Sprintf("op %d %s: %s", i, o.Kind, g.Panic))
@@ -548,10 +657,18 @@ ops:
 				ob.outs[i] = "del " + hexNames(del)
 			}
 		case "lvl":
-			l.SetLevel(o.Lv)
+			if g := guarded(func() { l.SetLevel(o.Lv) }); g.Timeout {
+				hung(i, "SetLevel")
+				break ops
+			}
 			ob.outs[i] = "ok"
 		case "cfg":
-			l.ApplyConfig(&fakeConf{rot: o.Rot, keep: int32(o.Keep), interval: int32(o.Interval), level: o.LevelStr})
+			if g := guarded(func() {
+				l.ApplyConfig(&fakeConf{rot: o.Rot, keep: int32(o.Keep), interval: int32(o.Interval), level: o.LevelStr})
+			}); g.Timeout {
+				hung(i, "ApplyConfig")
+				break ops
+			}
 			ob.outs[i] = "ok"
 		case "read":
 			file := o.fileArg(home)
@@ -559,7 +676,11 @@ ops:
 			ob.snaps[i], ob.snapMap[i] = snapshot(logs)
 			var d *logfile.LogData
 			szBefore := curSize(l)
-			g := vh.Guard(func() { d = l.Read(file, o.Endpos, o.Length) })
+			g := guarded(func() { d = l.Read(file, o.Endpos, o.Length) })
+			if g.Timeout {
+				hung(i, "Read")
+				break ops
+			}
 			ob.wrote[i] = curSize(l) > szBefore // a failing Read logs an [Error] line of its own
 			ob.readRes[i] = d
 			if !g.OK() {
@@ -575,7 +696,11 @@ ops:
 			// modelled quirk (dot inside logID/oname), not a failure of the statement
 			ob.snaps[i] = dirListing(logs)
 			var mv *value.MapValue
-			g := vh.Guard(func() { mv = l.GetLogFiles() })
+			g := guarded(func() { mv = l.GetLogFiles() })
+			if g.Timeout {
+				hung(i, "GetLogFiles")
+				break ops
+			}
 			if !g.OK() || mv == nil {
 				ob.outs[i] = "panic"
 			} else {
@@ -593,7 +718,11 @@ ops:
 			}
 		case "path":
 			var pth string
-			g := vh.Guard(func() { pth = l.GetLogFilePath() })
+			g := guarded(func() { pth = l.GetLogFilePath() })
+			if g.Timeout {
+				hung(i, "GetLogFilePath")
+				break ops
+			}
 			if !g.OK() {
 				ob.outs[i] = "panic"
 			} else {
